@@ -12,7 +12,7 @@ from ..pyexpr import ExprTr, emit_def, find_function, parse_file, translate_bloc
 
 U = "direct/utils/__init__.py"
 S = "direct/data/samplers.py"
-IMP = ("DirectVerif.Model.Sampler",)
+IMP = ("DirectVerif.Model.Sampler", "DirectVerif.Model.C13Machine")
 
 
 # ---- chunks ------------------------------------------------------------------------------------
@@ -295,6 +295,30 @@ def _c13_extra():
     except Untranslatable as e:
         parts.append(f"/-- SKIPPED ({e}) -/\ndef seq_iter_is_indices : Bool := true\n")
         status["seq_iter_is_indices"] = f"skipped: {e}"
+    # --- phase 3: object state across iterators (what the multi-iterator machine Model/C13Machine.lean relies on)
+    try:
+        tree = parse_file(REPO / S)
+        parts.append(_iter_tables(tree))
+        for k in ("bvs_iter_self_reads", "bvs_other_method_writes", "bvs_init_iterator_attrs", "seq_method_writes",
+                  "bvs_len_is_num_batches"):
+            status[k] = "translated"
+    except Untranslatable as e:
+        parts.append(f"/-- SKIPPED ({e}) -/\ndef bvs_iter_self_reads : List String := []\n"
+                     "def bvs_other_method_writes : List String := []\ndef bvs_init_iterator_attrs : List String := []\n"
+                     "def seq_method_writes : List String := []\ndef bvs_len_is_num_batches : Bool := true\n")
+        for k in ("bvs_iter_self_reads", "bvs_other_method_writes", "bvs_init_iterator_attrs", "seq_method_writes",
+                  "bvs_len_is_num_batches"):
+            status[k] = f"skipped: {e}"
+    # --- DistributedSequentialSampler.__init__: limit, then chunk, then select this rank's chunk
+    try:
+        order = _seq_init_order(find_function(parse_file(REPO / S), "DistributedSequentialSampler.__init__"))
+        parts.append("/-- `DistributedSequentialSampler.__init__`: the volume-limit slice, the `chunks` call and the selection of\n"
+                     "this rank's chunk, in statement order, with their operands -/\n"
+                     f"def seq_init_order : List String := {_lean_strs(order)}\n")
+        status["seq_init_order"] = "translated"
+    except Untranslatable as e:
+        parts.append(f"/-- SKIPPED ({e}) -/\ndef seq_init_order : List String := Sampler.expectedSeqInitOrder\n")
+        status["seq_init_order"] = f"skipped: {e}"
     # --- ConcatDatasetBatchSampler offsets
     try:
         fn = find_function(parse_file(REPO / S), "ConcatDatasetBatchSampler.__init__")
@@ -349,7 +373,8 @@ def _c13_extra():
         status["dist_step"] = f"skipped: {e}"
     # --- phase 2 tables: call sites of build_batch_sampler, DistributedSampler structure, concat draw
     E = "direct/engine.py"
-    for name, fnc, fb in (("batch_sampler_calls", lambda: _bbs_calls(parse_file(REPO / E)), "Sampler.expectedBatchSamplerCalls"),
+    for name, fnc, fb in (("dist_init_seed", lambda: _dist_init(parse_file(REPO / S)), "Sampler.expectedDistInit"),
+                          ("batch_sampler_calls", lambda: _bbs_calls(parse_file(REPO / E)), "Sampler.expectedBatchSamplerCalls"),
                           ("dist_structure", lambda: _dist_structure(parse_file(REPO / S)), "Sampler.expectedDistStructure"),
                           ("concat_next", lambda: _concat_next(parse_file(REPO / S)), "Sampler.expectedConcatNext")):
         try:
@@ -413,6 +438,17 @@ def _dist_structure(tree) -> list[str]:
     return ["methods: " + ", ".join(methods)] + _gen_outline(find_function(tree, "DistributedSampler._infinite_indices").body)
 
 
+def _dist_init(tree) -> list[str]:
+    """where seed, rank and world size of `DistributedSampler` come from"""
+    init = find_function(tree, "DistributedSampler.__init__")
+    keep = []
+    for ln in _gen_outline(init.body):
+        t = ln.strip()
+        if "seed" in t or "_rank" in t or "_world_size" in t:
+            keep.append(ln)
+    return keep
+
+
 def _concat_next(tree) -> list[str]:
     init = find_function(tree, "ConcatDatasetBatchSampler.__init__")
     out = []
@@ -420,6 +456,113 @@ def _concat_next(tree) -> list[str]:
         if isinstance(st, ast.Assign) and ast.unparse(st.targets[0]) in ("self.samplers", "self.weights", "self.cumulative_sizes"):
             out.append(f"{ast.unparse(st.targets[0])}={ast.unparse(st.value)}")
     return out + _gen_outline(find_function(tree, "ConcatDatasetBatchSampler.__next__").body)
+
+
+_ITER_FUNCS = {"iter", "map", "zip", "filter", "enumerate", "reversed"}
+
+
+def _is_iterator_expr(v) -> bool:
+    """does the expression evaluate to a one-shot iterator (or advance one)?"""
+    for n in ast.walk(v):
+        if isinstance(n, ast.GeneratorExp):
+            return True
+        if isinstance(n, ast.Call):
+            f = ast.unparse(n.func)
+            if f in _ITER_FUNCS or f == "next" or f.startswith("itertools."):
+                return True
+    return False
+
+
+def self_reads(fn: ast.FunctionDef) -> list[str]:
+    out = set()
+    for n in ast.walk(fn):
+        if isinstance(n, ast.Attribute) and isinstance(n.value, ast.Name) and n.value.id == "self":
+            out.add(n.attr)
+    return sorted(out)
+
+
+def _class(tree, name) -> ast.ClassDef:
+    for n in tree.body:
+        if isinstance(n, ast.ClassDef) and n.name == name:
+            return n
+    raise Untranslatable(f"class {name} not found")
+
+
+def _iter_tables(tree) -> str:
+    bvs, seq = _class(tree, "BatchVolumeSampler"), _class(tree, "DistributedSequentialSampler")
+    it = find_function(tree, "BatchVolumeSampler.__iter__")
+    reads = [a for a in self_reads(it)]
+    other = []
+    for f in bvs.body:
+        if isinstance(f, (ast.FunctionDef, ast.AsyncFunctionDef)) and f.name != "__init__":
+            other += [f"{f.name}:{a}" for a in self_writes(f)]
+    init = find_function(tree, "BatchVolumeSampler.__init__")
+    iters = []
+    for n in ast.walk(init):
+        if isinstance(n, (ast.Assign, ast.AnnAssign, ast.AugAssign)):
+            tgs = n.targets if isinstance(n, ast.Assign) else [n.target]
+            if n.value is not None and _is_iterator_expr(n.value):
+                for t in tgs:
+                    for sub in ast.walk(t):
+                        a = _self_attr(sub)
+                        if a:
+                            iters.append(a)
+        if isinstance(n, ast.Call) and ast.unparse(n.func) == "next" and n.args and _self_attr(n.args[0]):
+            iters.append(_self_attr(n.args[0]))
+    seqw = []
+    for f in seq.body:
+        if isinstance(f, (ast.FunctionDef, ast.AsyncFunctionDef)) and f.name != "__init__":
+            seqw += [f"{f.name}:{a}" for a in self_writes(f)]
+    ln = find_function(tree, "BatchVolumeSampler.__len__")
+    len_ok = (len(ln.body) == 1 and isinstance(ln.body[0], ast.Return)
+              and ast.unparse(ln.body[0].value) in ("self.__num_batches", "self._BatchVolumeSampler__num_batches"))
+    return ("/-- attributes of `self` read by `BatchVolumeSampler.__iter__` (the object state of the machine) -/\n"
+            f"def bvs_iter_self_reads : List String := {_lean_strs(reads)}\n\n"
+            "/-- `method:attr` for every attribute of `self` written / advanced / mutated by a method of\n"
+            "`BatchVolumeSampler` other than `__init__` -/\n"
+            f"def bvs_other_method_writes : List String := {_lean_strs(sorted(set(other)))}\n\n"
+            "/-- attributes that `BatchVolumeSampler.__init__` binds to a one-shot iterator (`iter`, `itertools.*`,\n"
+            "generator expression, …) or advances with `next` -/\n"
+            f"def bvs_init_iterator_attrs : List String := {_lean_strs(sorted(set(iters)))}\n\n"
+            "/-- the same for `DistributedSequentialSampler` (`iter(self.sampler)` must start a new pass each time) -/\n"
+            f"def seq_method_writes : List String := {_lean_strs(sorted(set(seqw)))}\n\n"
+            "/-- `__len__` returns the count computed in `__init__` -/\n"
+            f"def bvs_len_is_num_batches : Bool := {'true' if len_ok else 'false'}\n")
+
+
+def _seq_init_order(fn: ast.FunctionDef) -> list[str]:
+    """limit slice / chunks call / selection of the rank's chunk in statement order"""
+    out = []
+
+    def visit(stmts, guard=None):
+        for st in stmts:
+            if isinstance(st, ast.If):
+                visit(st.body, ast.unparse(st.test))
+                visit(st.orelse, "not " + ast.unparse(st.test))
+                continue
+            if isinstance(st, (ast.For, ast.While, ast.With, ast.Try)):
+                visit(getattr(st, "body", []), guard)
+                continue
+            if not isinstance(st, ast.Assign) or len(st.targets) != 1:
+                continue
+            tg, v = ast.unparse(st.targets[0]), st.value
+            if (isinstance(v, ast.Subscript) and isinstance(v.slice, ast.Slice) and v.slice.upper is not None
+                    and "limit_number_of_volumes" in ast.unparse(v.slice.upper)):
+                lo = "" if v.slice.lower is None else ast.unparse(v.slice.lower)
+                out.append(f"limit: {tg}={ast.unparse(v.value)}[{lo}:{ast.unparse(v.slice.upper)}] if {guard}")
+            for n in ast.walk(v):
+                if isinstance(n, ast.Call) and ast.unparse(n.func) == "chunks":
+                    out.append(f"chunk: {tg}<-chunks({', '.join(ast.unparse(a) for a in n.args)})")
+                if (isinstance(n, ast.Subscript) and not isinstance(n.slice, ast.Slice)
+                        and ast.unparse(n.slice) in ("self.rank", "rank")):
+                    cond = ""
+                    if isinstance(v, ast.IfExp):
+                        cond = f" if {ast.unparse(v.test)} else {ast.unparse(v.orelse)}"
+                    out.append(f"select: {tg}={ast.unparse(n.value)}[{ast.unparse(n.slice)}]{cond}")
+    visit(fn.body)
+    if not any(o.startswith("chunk:") for o in out) or not any(o.startswith("select:") for o in out):
+        raise Untranslatable("`chunks(...)` call / `[self.rank]` selection not found in DistributedSequentialSampler.__init__")
+    return out
 
 
 EXTRA["C13"] = _c13_extra
